@@ -169,7 +169,8 @@ RenewedBBOk(s, ev) == (FromCache(s, ev) /\ SameGroupOnly(s)) =>
     ~\E k \in DOMAIN upsent :
         /\ upsent[k].name = LowerName(s.name) /\ upsent[k].cls = s.cls /\ upsent[k].typ = s.typ
         /\ upsent[k].kind = "reply" /\ upsent[k].rcode = 0 /\ ~upsent[k].tc /\ ~upsent[k].nodata
-        /\ upsent[k].t > upsent[RespTok(ev)].t /\ upsent[k].t + 300 < s.t
+        \* newer by more than the request deadline: not a concurrent miss whose store happened to come first
+        /\ upsent[k].t > upsent[RespTok(ev)].t + Deadline /\ upsent[k].t + 300 < s.t
         /\ s.t + 50 < upsent[k].t + LifetimeMs(upsent[k], cfg.maxttl)
 
 \* C15: a query answered REFUSED by the limiter (the rules would have forwarded it) never reached an upstream
